@@ -232,6 +232,13 @@ def execute(case):
             return False
         except _Interrupt:
             return True
+        except Exception as e:      # re-indexing must not fail on a legal feature set
+            sys.settrace(old)
+            broken[c] = True
+            log.add('sort-raise', c, type(e).__name__)
+            viol.append({'property': PROPERTY, 'class': 'reindex-raised', 'signature': type(e).__name__,
+                         'detail': {'container': c, 'how': 'explicit', 'error': repr(e)[:200], 'n_features': len(model[c])}})
+            return False
         finally:
             sys.settrace(old)
 
